@@ -42,8 +42,9 @@ impl Buffer {
         if self.have < 0 {
             self.state.refill(drounds, &mut self.out);
             self.have += BLOCK as i8;
-            // checked in seek()
-            self.len -= 1;
+            // checked in seek(); for the 64-bit counter a fresh stream has len == 0 meaning 2^64
+            // blocks, so this must wrap rather than trip the overflow check of debug builds
+            self.len = self.len.wrapping_sub(1);
         }
         let mut have = self.have as usize;
         let have_ready = cmp::min(have, data.len());
